@@ -31,7 +31,8 @@ def projects(draw: Any, cycles: bool = False, star_consumers: bool = False) -> D
         for i in range(draw(st.integers(1, 3))):
             kind = draw(st.sampled_from(['class', 'class', 'func']))
             name = ('K%d' if kind == 'class' else 'f%d') % new_id()
-            d = {'name': name, 'id': nid[0], 'kind': kind, 'bases': [], 'members': ['m'] if kind == 'class' and draw(st.booleans()) else []}
+            d = {'name': name, 'id': nid[0], 'kind': kind, 'bases': [], 'members': ['m'] if kind == 'class' and draw(st.booleans()) else [],
+                 'nested': bool(kind == 'class' and draw(st.integers(0, 2)) == 0)}
             defs.append(d)
             all_defs.append((mod, d))
         impl.append({'mod': mod, 'defs': defs})
@@ -98,6 +99,10 @@ def to_files(proj: Dict[str, Any]) -> Tuple[Dict[str, str], Dict[str, Any]]:
                 for mname in d['members']:
                     lines.append('    def %s(self):' % mname)
                     lines.append('        """ID:%d.%s"""' % (d['id'], mname))
+                if d.get('nested'):
+                    lines += ['    class Inner:', '        """ID:%d.Inner"""' % d['id'], '        def im(self):', '            """ID:%d.Inner.im"""' % d['id'],
+                              '        iv = 1', '        """ID:%d.Inner.iv"""' % d['id'], '        class Deep:', '            """ID:%d.Inner.Deep"""' % d['id'],
+                              '            def dm(self):', '                """ID:%d.Inner.Deep.dm"""' % d['id']]
             else:
                 lines.append('def %s():' % d['name'])
                 lines.append('    """ID:%d"""' % d['id'])
@@ -180,5 +185,7 @@ def to_files(proj: Dict[str, Any]) -> Tuple[Dict[str, str], Dict[str, Any]]:
         d0 = first['defs'][0]
         files['q.py'] = 'from p.%s import %s\nQ = %s\n' % (first['mod'], d0['name'], d0['name'])
         checks.append({'type': 'name', 'obj': d0['name'], 'from': first['mod'], 'module': 'q', 'expr': d0['name'], 'how': 'from-impl'})
-    meta = {'defs': {n: {'mod': m, 'id': d['id'], 'kind': d['kind'], 'members': d['members'], 'bases': d['bases']} for n, (m, d) in defs.items()}, 'checks': checks}
+    meta = {'defs': {n: {'mod': m, 'id': d['id'], 'kind': d['kind'], 'bases': d['bases'],
+                         'members': d['members'] + (['Inner', 'Inner.im', 'Inner.iv', 'Inner.Deep', 'Inner.Deep.dm'] if d.get('nested') else [])}
+                     for n, (m, d) in defs.items()}, 'checks': checks}
     return files, meta
